@@ -278,7 +278,7 @@ def run(prog, ctx):
             if cal.endswith("::promote_sparse_to_windowed") or cal.endswith("::move_window"):
                 n_f += 1
                 res.obligations += 1
-                fx = [x for x in s.cmp_facts_at(b) if len(x) == 3 and x[0] in ("Ge", "Le", "Gt", "Lt")]
+                fx = [x for x in s.cmp_facts_at(b) if len(x) == 3 and x[0] in ("Ge", "Le", "Gt", "Lt", "Eq", "Ne")]
                 ok = False
                 why = None
                 for x in fx:
